@@ -1,6 +1,6 @@
 """Property -> rules table. Each rule callable: (prog, tier, repo) -> [RuleResult]."""
 from .rules import traversal_instances as TI
-from .rules import gate, lookup_unwrap, heap, witness, incremental, optimizer, const_arith, shape, backend
+from .rules import gate, lookup_unwrap, heap, witness, incremental, optimizer, const_arith, shape, backend, printer_rules
 
 PROPERTIES = {}
 
@@ -54,8 +54,12 @@ prop('C06', COMMON +
 
 prop('C08', COMMON +
      'TRAVERSAL/SIBLING: the pretty-printer reads every expression, pattern, annotation, identifier and literal slot of '
-     'the syntax tree (a slot never read is missing from the output).',
-     [TI.make(['T-prt'])])
+     'the syntax tree (a slot never read is missing from the output). PREC-ISO: the parser precedence ranking (derived '
+     'from the chain of productions that build Binary nodes) and the printer precedence table (read from its '
+     'discriminant switch) are compared on all 91 operator pairs. LITERAL-PARITY: every content transformation on the '
+     'parser\'s string-literal path has its inverse on the printer\'s. Does not decide layout or the commutative '
+     'right-operand shortcut.',
+     [printer_rules.run_prec_iso, printer_rules.run_literal_parity, TI.make(['T-prt'])])
 
 prop('C09', COMMON +
      'TRAVERSAL/SIBLING: the pretty-printer reads every comment-reference slot of the syntax tree.',
